@@ -2,6 +2,10 @@ package props
 
 import (
 	"fmt"
+	"strings"
+
+	"github.com/paulsonkoly/calc/parser"
+	"github.com/paulsonkoly/calc/types/node"
 
 	"verif/ast"
 	"verif/calcrun"
@@ -156,7 +160,7 @@ func failingStatements(r *core.Rng) (stmts []ast.Node, where string) {
 	return
 }
 
-var parseErrTexts = []string{"1 +", "(", "x = ", "if", "\"abc", "12££12", "[1, 2", "f(1,", "else 2", "}", "a b = 3", "for i <- ", "(a, b) ->", "while", "1 1", "{\n 1\n"}
+var parseErrTexts = []string{"{\n 1\n 2 +\n 3\n}", "[1,\n 2 3,\n 4]", "{\n x = 1\n y = = 2\n x\n}", "f = (a) -> {\n a\n ) \n a\n}", "{\n 1\n £\n 2\n}", "1 +", "(", "x = ", "if", "\"abc", "12££12", "[1, 2", "f(1,", "else 2", "}", "a b = 3", "for i <- ", "(a, b) ->", "while", "1 1", "{\n 1\n"}
 
 // suffixProbes: statements that reuse frames, contexts, the free list, closures and a top-level return.
 func suffixProbes(r *core.Rng) []ast.Node {
@@ -296,6 +300,19 @@ func c08Case(ctx *core.Ctx, idx int) core.Result {
 			o := ses.Exec(midText, doOut)
 			if len(o) != 1 || o[0].Parse == nil {
 				return nil, "INCONCLUSIVE parse error text was accepted"
+			}
+			// the way the REPL and file modes handle it: parse, display the error, execute nothing
+			var ppan any
+			pout := ""
+			func() {
+				defer func() { ppan = recover() }()
+				pout = calcrun.Capture(func() { node.VerifProcessInput(midText, parser.Type{}, ses.VM, doOut) })
+			}()
+			if ppan != nil {
+				return nil, fmt.Sprintf("reporting the syntax error of %q aborted the interpreter: %v", midText, ppan)
+			}
+			if !strings.Contains(pout, "^") {
+				return nil, fmt.Sprintf("no error display for %q: %q", midText, pout)
 			}
 			if ses.State() != st0 || fmt.Sprint(ses.Globals()) != g0 {
 				return nil, fmt.Sprintf("a statement that failed to parse changed the session: %+v -> %+v", st0, ses.State())
